@@ -2,10 +2,31 @@
 
 package flight
 
+import "bytes"
+
 // VerifLen reports the number of cached handshake messages (overlay only).
 func (h *Cache) VerifLen() int {
 	h.mu.Lock()
 	defer h.mu.Unlock()
 
 	return len(h.cache)
+}
+
+// VerifDuplicates reports how many cached items are byte-identical copies (same sender, epoch,
+// message sequence, type and bytes) of an item cached before them (overlay only).
+func (h *Cache) VerifDuplicates() int {
+	h.mu.Lock()
+	defer h.mu.Unlock()
+	n := 0
+	for i, a := range h.cache {
+		for _, b := range h.cache[:i] {
+			if a.MessageSequence == b.MessageSequence && a.IsClient == b.IsClient && a.Epoch == b.Epoch && a.Typ == b.Typ && bytes.Equal(a.Data, b.Data) {
+				n++
+
+				break
+			}
+		}
+	}
+
+	return n
 }
